@@ -134,7 +134,7 @@ COL_POOL = [("name", "text"), ("email", "text"), ("age", "integer"), ("score", "
 SCRATCH_POOL = ["scratch", "tmp_import", "new_scratch", "staging", "new_staging", "backfill_tmp"]
 
 # operation kinds that only the hand writer can produce (atlas never plans them)
-HAND_ONLY = {"temp_table", "temp_column", "replace_table", "drop_cols_alter", "drop_cols_rebuild_variant"}
+HAND_ONLY = {"temp_table", "temp_column", "replace_table", "drop_cols_alter", "drop_cols_rebuild_variant", "readd_column", "recreate_table"}
 
 ADDITIVE = {"add_table", "add_column", "add_index", "add_column_rebuild"}
 TEMPORARY = {"temp_table", "temp_column"}
@@ -163,7 +163,8 @@ def rand_table(rng, name, ncols=None, gens=True):
         used.add(c.name)
         cols.append(c)
     if gens and rng.random() < 0.55:
-        cols.append(Col("g_v", "integer", True, None, ("VIRTUAL", "id * 2")))
+        # anywhere after the key: a VIRTUAL column may be declared before or after regular ones
+        cols.insert(rng.randint(1, len(cols)), Col("g_v", "integer", True, None, ("VIRTUAL", "id * 2")))
     if gens and rng.random() < 0.3:
         cols.append(Col("g_s", "integer", True, None, ("STORED", "id + 1")))
     t = Table(name, cols)
@@ -177,6 +178,15 @@ def rand_table(rng, name, ncols=None, gens=True):
         if any(i.name == iname for i in t.indexes):
             continue
         t.indexes.append(Index(iname, ic, rng.random() < 0.2))
+    return t
+
+
+def vmix_table(rng, name):
+    """A table whose VIRTUAL generated column sits between regular columns (id, a.., g_v, b..)."""
+    t = rand_table(rng, name, ncols=rng.randint(3, 5), gens=False)
+    t.cols.insert(rng.randint(2, len(t.cols) - 1), Col("g_v", "integer", True, None, ("VIRTUAL", "id * 2")))
+    if rng.random() < 0.3:
+        t.cols.append(Col("g_s", "integer", True, None, ("STORED", "id + 1")))
     return t
 
 
@@ -195,6 +205,15 @@ def apply_op(schema, op):
         t = schema.tables[op["t"]]
         t.cols = [c for c in t.cols if c.name not in op["cols"]]
         t.indexes = [i for i in t.indexes if not (set(i.cols) & set(op["cols"]))]
+        if op.get("intr"):
+            apply_op(schema, op["intr"])
+    elif k == "readd_column":
+        t = schema.tables[op["t"]]
+        t.cols = [c for c in t.cols if c.name != op["col"].name] + [copy.deepcopy(op["col"])]
+        t.indexes = [i for i in t.indexes if op["col"].name not in i.cols]
+    elif k == "recreate_table":
+        del schema.tables[op["t"]]
+        schema.tables[op["t"]] = copy.deepcopy(op["table"])
     elif k == "replace_table":
         old = schema.tables.pop(op["t"])
         nt = copy.deepcopy(old)
@@ -261,11 +280,34 @@ def hand_sql(schema, op, rng):
                 return rebuild_sql(bt, at, op["t"] + "_tmp")
             if v == "noinsert":
                 return rebuild_sql(bt, at, "new_" + op["t"], insert=False)
+            if v == "intruder":
+                # exactly one foreign statement between CREATE new_t and DROP t (where the INSERT .. SELECT usually is)
+                st = rebuild_sql(bt, at, "new_" + op["t"], insert=False)
+                mid = hand_sql(schema, op["intr"], rng)
+                assert len(mid) == 1, mid
+                return st[:1] + mid + st[1:]
             if v == "extra":
                 st = rebuild_sql(bt, at, "new_" + op["t"])
                 return st[:2] + ["UPDATE %s SET %s = %s" % (q("new_" + op["t"]), q("id"), q("id"))] + st[2:]
             raise ValueError(v)
         return rebuild_sql(bt, at, "new_" + op["t"])
+    if k == "readd_column":
+        t = schema.tables[op["t"]]
+        c = op["col"]
+        if op["how"] == "alter":
+            out = ["DROP INDEX %s" % q(i.name) for i in t.indexes if c.name in i.cols]
+            out.append("ALTER TABLE %s DROP COLUMN %s" % (q(t.name), q(c.name)))
+        else:
+            mid = schema.clone()
+            apply_op(mid, {"op": "drop_cols_rebuild", "t": t.name, "cols": [c.name]})
+            out = rebuild_sql(t, mid.tables[t.name], "new_" + t.name)
+        for f in op.get("between", []):
+            out.append("UPDATE %s SET %s = %s" % (q(t.name), q("id"), q("id")))
+        out.append("ALTER TABLE %s ADD COLUMN %s" % (q(t.name), col_sql(c)))
+        return out
+    if k == "recreate_table":
+        nt = op["table"]
+        return ["DROP TABLE %s" % q(op["t"]), create_table_sql(nt)] + [create_index_sql(i, nt.name) for i in nt.indexes]
     if k == "temp_table":
         t = op["table"]
         out = [create_table_sql(t)]
@@ -314,7 +356,8 @@ def hand_sql(schema, op, rng):
 COMMENTS = {"add_table": "create table", "add_column": "add column", "add_index": "add index", "drop_table": "drop table",
             "drop_cols_alter": "drop columns", "drop_cols": "rebuild without the columns", "drop_cols_rebuild": "rebuild without the columns",
             "drop_cols_rebuild_variant": "rebuild without the columns", "add_column_rebuild": "rebuild with the new column",
-            "temp_table": "scratch table", "temp_column": "scratch column", "replace_table": "replace table"}
+            "temp_table": "scratch table", "temp_column": "scratch column", "replace_table": "replace table",
+            "readd_column": "change the column type: drop it and add it again", "recreate_table": "recreate the table from scratch"}
 
 
 def render_hand_file(schema, ops, rng, header=True):
@@ -329,7 +372,7 @@ def render_hand_file(schema, ops, rng, header=True):
         ss = hand_sql(cur, op, rng)
         stmts.append((op, ss))
         apply_op(cur, op)
-    needs_pragma = style == "pragmas" and any(op["op"] in ("drop_cols", "drop_cols_rebuild", "drop_cols_rebuild_variant", "add_column_rebuild", "drop_table", "replace_table") for op, _ in stmts)
+    needs_pragma = style == "pragmas" and any(op["op"] in ("drop_cols", "drop_cols_rebuild", "drop_cols_rebuild_variant", "add_column_rebuild", "drop_table", "replace_table", "recreate_table") for op, _ in stmts)
     if needs_pragma:
         chunks.append("PRAGMA foreign_keys = off;\n")
     for op, ss in stmts:
@@ -387,11 +430,14 @@ def droppable(t, virtual=None):
     return out
 
 
-def make_op(rng, schema, kind, writer):
-    """Build one operation of the requested kind against the state, or None when the state does not allow it."""
-    names = sorted(schema.tables)
+def make_op(rng, schema, kind, writer, protect=(), target=None):
+    """Build one operation of the requested kind against the state, or None when the state does not allow it.
+    Tables in `protect` are left alone; `target` restricts the choice to one table."""
+    names = sorted(n for n in schema.tables if n not in protect)
+    if target is not None:
+        names = [target] if target in schema.tables else []
     if kind == "add_table":
-        n = fresh_table_name(rng, schema)
+        n = fresh_table_name(rng, schema, taken=protect)
         return {"op": "add_table", "table": rand_table(rng, n)}
     if kind in ("add_column", "add_column_rebuild"):
         if not names:
@@ -447,6 +493,63 @@ def make_op(rng, schema, kind, writer):
                 continue
             return op
         return None
+    if kind in ("readd_alter", "readd_rebuild"):
+        rng.shuffle(names)
+        for n in names:
+            t = schema.tables[n]
+            cands = [c for c in t.cols if c.gen is None and c.name != "id"]
+            if not cands or (kind == "readd_rebuild" and "new_" + n in schema.tables):
+                continue
+            c = rng.choice(cands)
+            typ = rng.choice([x for x in ("integer", "text", "real") if x != c.typ])
+            return {"op": "readd_column", "t": n, "col": Col(c.name, typ, True), "how": "alter" if kind == "readd_alter" else "rebuild",
+                    "between": ["update"] if rng.random() < 0.4 else []}
+        return None
+    if kind == "recreate_table":
+        if not names:
+            return None
+        n = rng.choice(names)
+        nt = copy.deepcopy(schema.tables[n]) if rng.random() < 0.5 else rand_table(rng, n)
+        return {"op": "recreate_table", "t": n, "table": nt}
+    if kind in ("drop_vmix_before", "drop_vmix_after"):
+        rng.shuffle(names)
+        for n in names:
+            t = schema.tables[n]
+            pos = [i for i, c in enumerate(t.cols) if c.virtual()]
+            if not pos or (writer == "atlas" and "new_" + n in schema.tables):
+                continue
+            vi = pos[0]
+            if kind == "drop_vmix_before":
+                regs = [c.name for c in t.cols[vi + 1:] if c.gen is None]
+            else:
+                regs = [c.name for c in t.cols[1:vi] if c.gen is None]
+            if not regs:
+                continue
+            cols = [t.cols[vi].name] + rng.sample(regs, min(len(regs), rng.choice([1, 1, 2])))
+            where = kind[len("drop_vmix_"):]
+            if writer == "atlas":
+                return {"op": "drop_cols", "t": n, "cols": cols, "vonly": False, "vmix": where}
+            how = "drop_cols_rebuild" if (target is not None or rng.random() < 0.7) else "drop_cols_alter"
+            if how == "drop_cols_rebuild" and "new_" + n in schema.tables:
+                continue
+            return {"op": how, "t": n, "cols": cols, "vonly": False, "vmix": where}
+        return None
+    if kind == "rebuild_intruder":
+        rng.shuffle(names)
+        for n in names:
+            t = schema.tables[n]
+            cands = [c.name for c in t.cols if c.gen is None and c.name != "id"]
+            others = [o for o in names if o != n]
+            if not cands or not others or "new_" + n in schema.tables:
+                continue
+            y = schema.tables[rng.choice(others)]
+            free = [c.name for c in y.cols if c.gen is None and c.name != "id" and not any(c.name in i.cols for i in y.indexes)]
+            if free and rng.random() < 0.5:
+                intr = {"op": "drop_cols_alter", "t": y.name, "cols": [rng.choice(free)], "vonly": False}
+            else:
+                intr = {"op": "drop_table", "t": y.name}
+            return {"op": "drop_cols_rebuild_variant", "variant": "intruder", "t": n, "cols": [rng.choice(cands)], "vonly": False, "intr": intr}
+        return None
     if kind == "temp_table":
         taken = set(schema.tables)
         pool = [n for n in SCRATCH_POOL if n not in taken]
@@ -480,9 +583,17 @@ def make_op(rng, schema, kind, writer):
     raise ValueError(kind)
 
 
-ATLAS_KINDS = ["add_table", "add_column", "add_index", "add_column_rebuild", "drop_table", "drop_col", "drop_col", "drop_virtual", "mixed", "mixed_big"]
+ATLAS_KINDS = ["add_table", "add_column", "add_index", "add_column_rebuild", "drop_table", "drop_col", "drop_col", "drop_virtual", "mixed", "mixed_big",
+               "drop_vmix_before", "drop_vmix_after"]
 HAND_KINDS = ["add_table", "add_column", "add_index", "add_column_rebuild", "drop_table", "drop_col_alter", "drop_col_rebuild", "drop_col_rebuild",
-              "drop_col_variant", "drop_virtual", "temp_table", "temp_table", "temp_column", "replace_table", "mixed", "mixed_additive_temp", "mixed_big"]
+              "drop_col_variant", "drop_virtual", "temp_table", "temp_table", "temp_column", "replace_table", "mixed", "mixed_additive_temp", "mixed_big",
+              "readd_alter", "readd_rebuild", "recreate_table", "drop_vmix_before", "drop_vmix_after", "rebuild_intruder"]
+
+# step kinds forced into an evolution (one per evolution, cycling over the evolution number), so that every
+# run -- whatever the seed -- contains each of these shapes several times
+FOCUS = [("readd_alter", "hand"), ("readd_rebuild", "hand"), ("recreate_table", "hand"), ("drop_vmix_before", "atlas"),
+         ("drop_vmix_before", "hand"), ("drop_vmix_after", "atlas"), ("drop_vmix_after", "hand"), ("rebuild_intruder", "hand"),
+         None, None]
 
 
 def op_label(op):
@@ -492,10 +603,14 @@ def op_label(op):
     return k
 
 
-def gen_evolution(rng, nsteps=6):
-    """One evolution: a list of steps {writer, ops, kind, before(Schema), after(Schema)}; step 0 builds S0."""
+def gen_evolution(rng, nsteps=6, focus=None):
+    """One evolution: a list of steps {writer, ops, kind}; step 0 builds S0. With focus = (kind, writer) one of
+    the later steps (seeded position) is of that kind; for the drop_vmix kinds S0 contains a table whose VIRTUAL
+    column sits between regular ones and the steps before the focus step leave that table alone."""
     schema = Schema()
     steps = []
+    protect, target = set(), None
+    fpos = rng.randint(1, nsteps) if focus else None
     # ---- S0 ----
     writer = rng.choice(["atlas", "hand"])
     big = rng.random() < 0.45
@@ -508,16 +623,35 @@ def gen_evolution(rng, nsteps=6):
             op["table"].indexes.append(Index("idx_%s_id" % op["table"].name, ["id"], False))
         apply_op(cur, op)
         ops.append(op)
+    if focus and focus[0].startswith("drop_vmix"):
+        target = fresh_table_name(rng, cur)
+        while "new_" + target in cur.tables:
+            target = fresh_table_name(rng, cur)
+        op = {"op": "add_table", "table": vmix_table(rng, target)}
+        apply_op(cur, op)
+        ops.insert(rng.randint(0, len(ops)), op)
+        protect = {target, "new_" + target}
     if writer == "hand" and rng.random() < 0.5:
-        tmp = make_op(rng, cur, "temp_table", writer)
+        tmp = make_op(rng, cur, "temp_table", writer, protect=protect)
         ops.insert(rng.randint(1, len(ops)), tmp)
     steps.append({"writer": writer, "ops": ops, "kind": "first_big" if big else "first_small"})
     for op in ops:
         apply_op(schema, op)
     # ---- S1..Sn ----
-    for _ in range(nsteps):
+    for stepno in range(1, nsteps + 1):
         writer = rng.choice(["atlas", "hand"])
         kinds = ATLAS_KINDS if writer == "atlas" else HAND_KINDS
+        if stepno == fpos:
+            fop = None
+            for _try in range(10):
+                fop = make_op(rng, schema, focus[0], focus[1], target=target)
+                if fop is not None:
+                    break
+            protect = set()
+            if fop is not None:
+                steps.append({"writer": focus[1], "ops": [fop], "kind": focus[0], "focus": True})
+                apply_op(schema, fop)
+                continue
         for _try in range(20):
             kind = rng.choice(kinds)
             cur = schema.clone()
@@ -525,7 +659,7 @@ def gen_evolution(rng, nsteps=6):
             if kind == "mixed":
                 pool = [k for k in kinds if not k.startswith("mixed")]
                 for k in rng.sample(pool, min(len(pool), rng.choice([2, 2, 3]))):
-                    op = make_op(rng, cur, k, writer)
+                    op = make_op(rng, cur, k, writer, protect=protect)
                     if op is not None and compatible(ops, op):
                         apply_op(cur, op)
                         ops.append(op)
@@ -533,7 +667,7 @@ def gen_evolution(rng, nsteps=6):
                 # a long file (> 10 statements): additive filler first, the destructive operations late in the file
                 pool = [k for k in kinds if k.startswith("drop_") or k == "replace_table"]
                 for k in ["add_table", "add_table", "add_table", rng.choice(["add_index", "add_column"]), "add_table"] + rng.sample(pool, 2) + ["add_index"]:
-                    op = make_op(rng, cur, k, writer)
+                    op = make_op(rng, cur, k, writer, protect=protect)
                     if op is not None and k == "add_table" and not op["table"].indexes:
                         op["table"].indexes.append(Index("idx_%s_id" % op["table"].name, ["id"], False))
                     if op is not None and compatible(ops, op):
@@ -541,12 +675,12 @@ def gen_evolution(rng, nsteps=6):
                         ops.append(op)
             elif kind == "mixed_additive_temp":
                 for k in rng.sample(["add_table", "add_column", "add_index", "temp_table", "temp_column"], 3):
-                    op = make_op(rng, cur, k, writer)
+                    op = make_op(rng, cur, k, writer, protect=protect)
                     if op is not None and compatible(ops, op):
                         apply_op(cur, op)
                         ops.append(op)
             else:
-                op = make_op(rng, cur, kind, writer)
+                op = make_op(rng, cur, kind, writer, protect=protect)
                 if op is not None:
                     ops = [op]
                     apply_op(cur, op)
@@ -571,7 +705,9 @@ def compatible(ops, op):
         if k == "replace_table":
             return {o["t"], o["new"]}
         if k in REBUILDS:
-            return {o["t"], rebuild_tmp(o)}
+            return {o["t"], rebuild_tmp(o)} | (tabs(o["intr"]) if o.get("intr") else set())
+        if k == "readd_column":
+            return {o["t"], "new_" + o["t"]}
         return {o["t"]}
     mine = tabs(op)
     for o in ops:
@@ -599,6 +735,10 @@ def file_class(ops):
     if len(ops) > 1:
         return "mixed_big" if len(ops) >= 6 else "mixed"
     o = ops[0]
+    if o["op"] == "readd_column":
+        return "readd_column:" + o["how"]
+    if dropc and o.get("vmix"):
+        return "drop_vmix_%s:%s" % (o["vmix"], o["op"])
     if dropc:
         if o.get("vonly"):
             return "drop_virtual:" + o["op"]
@@ -727,28 +867,67 @@ def read_facts(con):
     return out
 
 
-def replay_facts(texts):
-    """Execute the files in order with python's sqlite3 (an engine instance Atlas never touches) and return
-    [facts_before_file_0, facts_after_file_0, facts_after_file_1, ...]."""
+def track_file(con, text):
+    """Execute one file statement by statement and follow the objects that existed BEFORE the file:
+    a pre-existing table that disappears is a dropped table (cause: that statement) unless the statement is the
+    DROP of a rebuild group (CREATE tmp .. DROP t .. RENAME tmp TO t), in which case the table's identity continues
+    at the RENAME and the pre-existing columns missing there are dropped columns (cause: the group); a pre-existing
+    column that disappears from a surviving table is a dropped column (cause: that statement). Objects created by
+    the file itself (including a column or table re-created under an old name) are never 'pre-existing'.
+
+    Returns {"before", "after", "tables": [(t, i)], "columns": [(t, c, (a, b))], "virtual": [(t, c)], "stmts", "groups"}
+    where i is a statement index and (a, b) the inclusive statement index range of the cause."""
+    stmts = split_sql(text)
+    _, _, groups = analyze_file(stmts)
+    before = read_facts(con)
+    alive = {t: {c for c, h in cols.items() if h != "v"} for t, cols in before.items()}
+    valive = {t: {c for c, h in cols.items() if h == "v"} for t, cols in before.items()}
+    drop_at = {g[3]: g for g in groups}
+    suspended = {}
+    tabs, cols, virt = [], [], []
+    now = before
+    for i, s in enumerate(stmts):
+        con.execute(s.text)
+        now = read_facts(con)
+        for t in sorted(alive):
+            cause = (i, i)
+            if t in suspended:
+                g = suspended[t]
+                if i != g[4]:
+                    continue
+                del suspended[t]
+                cause = (g[2], g[4])
+            if t not in now:
+                g = drop_at.get(i)
+                if g is not None and g[0] == t:
+                    suspended[t] = g
+                    continue
+                tabs.append((t, i))
+                del alive[t]
+                continue
+            for c in sorted(alive[t] - set(now[t])):
+                cols.append((t, c, cause))
+            for c in sorted(valive[t] - set(now[t])):
+                virt.append((t, c))
+            alive[t] &= set(now[t])
+            valive[t] &= set(now[t])
+    return {"before": before, "after": now, "tables": tabs, "columns": cols, "virtual": virt, "stmts": stmts, "groups": groups}
+
+
+def replay_files(texts):
+    """Execute the files in order with python's sqlite3 (an engine instance Atlas never touches); one track_file()
+    record per file."""
     con = sqlite3.connect(":memory:", isolation_level=None)
     try:
-        out = [read_facts(con)]
-        for text in texts:
-            for s in split_sql(text):
-                con.execute(s.text)
-            out.append(read_facts(con))
-        return out
+        return [track_file(con, text) for text in texts]
     finally:
         con.close()
 
 
-def expected_drops(before, after):
-    """(tables, columns): tables present before and absent after; (table, column) of surviving tables whose
-    non-virtual column is present before and absent after."""
-    tabs = sorted(t for t in before if t not in after)
-    cols = sorted((t, c) for t in before if t in after for c, h in before[t].items() if c not in after[t] and h != "v")
-    virt = sorted((t, c) for t in before if t in after for c, h in before[t].items() if c not in after[t] and h == "v")
-    return tabs, cols, virt
+def replay_facts(texts):
+    """[facts_before_file_0, facts_after_file_0, facts_after_file_1, ...]"""
+    recs = replay_files(texts)
+    return [recs[0]["before"] if recs else {}] + [r["after"] for r in recs]
 
 
 QUOTED = re.compile(r'"((?:[^"\\]|\\.)*)"')
